@@ -629,6 +629,36 @@ def run(chk):
            private_emit("emit::macro_hooks::__private_emit_event"))
 
     # unclassified impls: generic discipline only (no alarm for shape)
+    def when_absent_is_none():
+        """The tokens interpolated at a hook's `when` position come from an `Option<TokenStream>` turned into tokens by
+        ToOptionTokens (absent argument -> `None`, so the runtime's filter applies) - never from a bare token stream, which that
+        helper renders as `Some(..)` (a call-site filter that always overrides the runtime's)."""
+        from . import quotes
+        n = 0
+        for mb in P.by_crate["emit_macros"]:
+            for hook, args, loc, lits in quotes.hook_calls(mb):
+                pn = quotes.hook_params(P, hook)
+                if not pn or "when" not in pn or pn[:1] == ["self"]:
+                    continue
+                i = pn.index("when")
+                if i >= len(args):
+                    continue
+                for op in args[i]:
+                    o = mb.origin(op)
+                    if o[0] == "param":
+                        continue   # built by the caller (checked where it is built)
+                    n += 1
+                    if not (o[0] == "call" and o[1].callee.get("name") == "to_option_tokens"
+                            and (o[1].callee.get("self_ty") or "").startswith("core::option::Option<")):
+                        return False, ("the generated call of %s at %s gets its `when` argument from %s: it must be an Option turned into tokens "
+                                       "(absent -> None); a bare token stream becomes Some(..) and every such call site would bypass the "
+                                       "runtime's filter" % (hook, loc, o_str(o))), [], loc
+                    recv = mb.origin(o[1].args[0])
+        if n < 4:
+            raise mir.AnchorMissing("`when` positions of generated hook calls (found %d)" % n)
+        return True, "", ["%d generated calls" % n]
+    chk.ob("C01.S2.macro:when-absent-is-none", "without a `when` argument the expansion passes None, so the runtime's filter decides", when_absent_is_none)
+
     # macro/runtime boundary: what the expansion passes at each named hook parameter (read off emit_macros' quote! templates)
     from . import quotes
     quotes.boundary_rule(chk, P, "C01", {"__private_emit", "__private_emit_event", "__private_evt"}, 4)
